@@ -383,6 +383,7 @@ class World:
         self.results = []
         self.picks = []
         self.cur_owner = None
+        self.called_back = []
         self.ready = set()
         self.pending_dns_meta = []
         self.pending_udp_meta = []
@@ -476,6 +477,11 @@ class World:
                     s.meta = world.pending_dns_meta.pop(0) if world.pending_dns_meta else None
                     world.cur_owner = s
                     saved['dnsproxy'].__init__(s, mux, chan, request, to_ns)
+
+                def callback(s, sock):
+                    world.cur_owner = s           # sockets created by a retry belong to this query
+                    world.called_back.append((s, getattr(sock, 'rec', None)))
+                    return saved['dnsproxy'].callback(s, sock)
 
             class RecUdpProxy(saved['udpproxy']):
                 def __init__(s, mux, chan, family):
@@ -589,7 +595,7 @@ class World:
             self.pc += 1
             w = line.split()
             op = w[0]
-            if op in ('sround', 'sinject', 'ssock'):
+            if op in ('sround', 'sinject', 'ssock', 'smulti'):
                 if not server_alive:
                     self.dead_server_step(w, line)
                     continue
@@ -733,6 +739,7 @@ class World:
         self.results = [] if res == '-' else [int(x) for x in res.split(',')]
         self.picks = []
         self.rsends, self.usends, self.new_socks = [], [], []
+        self.called_back = []
         self.ready = set()
         self.cur_owner = None
         info = dict(op=op, line=line, frames=[], sock=None, event=None)
@@ -749,6 +756,22 @@ class World:
             self.s_r.next = b''.join(enc_frame(f) for f, _m in taken)
             if taken:
                 self.ready = {self.s_r}
+        elif op == 'smulti':
+            # several resolver sockets have a datagram (or an error) waiting in the same runonce pass
+            info['events'] = []
+            for t in w[1].split(';'):
+                k, kind, val = t.split('.')
+                sock = self.socks.get(int(k))
+                ev = ('d', None, unhex(val)) if kind == 'd' else ('e', int(val))
+                listed = [h for h in self.shandlers
+                          if sock is not None and any(getattr(x, 'rec', None) is sock for x in h.socks)]
+                live = [h for h in listed if h.ok]
+                info['events'].append(dict(sock=sock, ev=ev, handler=live[0] if live else None))
+                if listed:
+                    if ev[0] == 'd':
+                        ev = ('d', sock.peer or ('0.0.0.0', 0), ev[2])
+                    sock.pending = ev
+                    self.ready |= {x for h in listed for x in h.socks if getattr(x, 'rec', None) is sock}
         else:
             k = int(w[1])
             sock = self.socks.get(k)
@@ -758,12 +781,15 @@ class World:
             else:
                 info['event'] = ('e', int(w[3]))
             if sock is not None:
-                live = [h for h in self.shandlers if h.ok and any(getattr(x, 'rec', None) is sock for x in h.socks)]
+                listed = [h for h in self.shandlers if any(getattr(x, 'rec', None) is sock for x in h.socks)]
+                live = [h for h in listed if h.ok]
                 info['handler'] = live[0] if live else None
-                if live:
+                if listed:
+                    # a datagram is waiting on the socket; whether anybody still select()s it is the
+                    # real runonce's decision (a retired handler must have been dropped by now)
                     sock.pending = info['event']
-                    self.ready = {x for x in live[0].socks if getattr(x, 'rec', None) is sock}
-                    self.cur_owner = live[0]
+                    self.ready = {x for h in listed for x in h.socks if getattr(x, 'rec', None) is sock}
+                    self.cur_owner = listed[0]
         info['pre_alive'] = [h for h in self.shandlers if h.ok]
         self.srv_pending = info
         try:
@@ -775,6 +801,8 @@ class World:
 
     def finish_server_step(self, raised=None):
         info, self.srv_pending = self.srv_pending, None
+        for r in self.socks.values():
+            r.pending = None                      # nobody read it in this pass: the script moves on
         frames = [dec_frame(b) for b in self.smux.outbuf]
         self.smux.outbuf[:] = []
         self.ins.append(info['line'] + ' picks=' + join_or(',', self.picks))
@@ -820,6 +848,7 @@ class World:
             return
         self.cur_owner = None
         self.ready = set()                # (holds the handle of the socket that was made ready)
+        self.called_back = []
         def too_many(ling):
             return len({r.owner_hid for r in ling}) > (0 if final else 1)
         ling = self.lingering_resolver_sockets()
@@ -1196,6 +1225,33 @@ class World:
                                  'nobody reads socket %d any more: %s' % (sk.sid, self.server_state()[:200]))
             if frames or self.rsends or self.usends:
                 self.violate('C10:reply-on-retired-socket-relayed', 'nothing', show_frames(frames))
+        elif info['op'] == 'smulti':
+            # several sockets in one pass: one DNS_RESPONSE per live handler that got a datagram, nothing else
+            want = []
+            for evd in info['events']:
+                h, e = evd['handler'], evd['ev']
+                if h is not None and isinstance(h, self.RecDnsProxy) and e[0] == 'd':
+                    q = self.queries.get(h.meta[1]) if h.meta else None
+                    want.append(((h.chan, C.CMD_DNS_RESPONSE, e[2][:4096]), q, h))
+                elif h is None:
+                    self.h('server-late-or-unknown-socket-event')
+            self.h('dns-replies-in-one-pass:%d' % len(want))
+            for f in frames:
+                hit = next((x for x in want if x[0] == f), None)
+                if hit is None:
+                    self.violate('C10:reply-on-retired-socket-relayed',
+                                 'one DNS_RESPONSE per live query that received a reply in this pass: %s'
+                                 % show_frames([x[0] for x in want])[:200], show_frames(frames)[:300])
+                    continue
+                want.remove(hit)
+                _f, q, h = hit
+                self.s2c.append((f, ('dns-reply', q['qid'], f[2]) if q else None))
+                self.h('dns-reply-relayed')
+                if h.ok:
+                    self.violate('C10:handler-not-retired-after-first-reply', 'handler retired', 'still ok')
+            if want and not raised:
+                self.violate('C10:reply-not-relayed-verbatim', show_frames([x[0] for x in want])[:200],
+                             show_frames(frames)[:200])
         else:
             # tunnel read: each UDP_DATA must be re-emitted once, unchanged, on its association's socket
             sends = list(self.usends)
@@ -1364,6 +1420,10 @@ class ScenarioGen:
             opts.append(('cdeliver', 7))
         if w.socks and not w.server_dead:
             opts.append(('ssock', 6))
+            live_dns = [s for s in w.socks.values() if s.kind == 'dns' and not s.released and
+                        any(h.ok and any(getattr(x, 'rec', None) is s for x in h.socks) for h in w.shandlers)]
+            if len(live_dns) >= 2 and self.focus == 'dns':
+                opts.append(('smulti', 4))
         opts.append(('cinject', 0.5))
         if not w.server_dead:
             opts.append(('sinject', 0.15))
@@ -1396,6 +1456,10 @@ class ScenarioGen:
                     if any(h.ok and any(getattr(x, 'rec', None) is s for x in h.socks) for h in w.shandlers)]
             pool = live if (live and rng.random() < 0.85) else list(w.socks.values())
             s = rng.choice(pool)
+            recent = [w.socks[k] for k in getattr(self, 'recent_socks', []) if k in w.socks]
+            if recent and rng.random() < 0.6:
+                s = recent.pop()                  # a duplicate / late datagram on a just-answered socket
+                self.recent_socks = [r.sid for r in recent]
             is_udp = s.kind == 'udp'
             err_ok = self.faults and ((is_udp and self.focus == 'udp') or (not is_udp and self.focus == 'dns'))
             if err_ok and rng.random() < (0.12 if is_udp else 0.3):
@@ -1408,6 +1472,18 @@ class ScenarioGen:
             else:
                 host = s.peer or ('1.1.1.1', 53)
             return 'ssock %d d %s %s' % (s.sid, show_addr(host), hexb(rand_payload(rng)))
+        if name == 'smulti':
+            live_dns = [s for s in w.socks.values() if s.kind == 'dns' and not s.released and
+                        any(h.ok and any(getattr(x, 'rec', None) is s for x in h.socks) for h in w.shandlers)]
+            picked = rng.sample(live_dns, rng.randrange(2, min(len(live_dns), 4) + 1))
+            evs = []
+            for s in sorted(picked, key=lambda r: r.sid):
+                if self.faults and rng.random() < 0.15:
+                    evs.append('%d.e.%d' % (s.sid, rng.choice(NET_ERRNOS + OTHER_ERRNOS)))
+                else:
+                    evs.append('%d.d.%s' % (s.sid, hexb(rand_payload(rng)[:64])))
+            self.recent_socks = [s.sid for s in picked]
+            return 'smulti %s%s' % (';'.join(evs), self.script(4))
         if name == 'cinject':
             chans = [k for k, v in w.cmux.channels.items() if v] or [1]
             chan = rng.choice(chans + [rng.randrange(1, 8)])
@@ -1498,6 +1574,18 @@ def corpus(focus):
             cases.append(('resolv-conf-' + name,
                           'cfg method=tproxy max=65535 probes=1024 rc=%s tons=-' % hexb(text.encode('ascii')),
                           [q % '01', q % '02', 'sround 2', 'ssock 0 d 10.11.12.13|53 aa', 'cdeliver']))
+        # several queries answered in the same runonce pass, then duplicates / late datagrams on their sockets
+        for nq in (2, 3):
+            st = [q % ('%02x' % i) for i in range(nq)] + ['sround %d' % nq,
+                  'smulti ' + ';'.join('%d.d.a%d' % (i, i) for i in range(nq))]
+            st += ['ssock %d d 1.1.1.1|53 d%d' % (i, i) for i in reversed(range(nq))]
+            st += ['cdeliver'] * (nq + 1)
+            st += ['ssock %d d 1.1.1.1|53 e%d' % (i, i) for i in range(nq)] + ['cdeliver', q % 'ff', 'sround 1']
+            cases.append(('dns-%d-answers-one-pass' % nq, 'cfg method=tproxy max=65535 probes=1024 ns=1.1.1.1 tons=-', st))
+        cases.append(('dns-one-pass-mixed', 'cfg method=tproxy max=65535 probes=1024 ns=1.1.1.1,8.8.8.8 tons=-',
+                      [q % '01', q % '02', q % '03', 'sround 3', 'smulti 0.e.111;1.d.b1;2.e.13 res=0,0',
+                       'smulti 3.d.c3;1.d.b2', 'ssock 3 d 1.1.1.1|53 c4', 'ssock 2 d 1.1.1.1|53 c5', 'cdeliver', 'cdeliver',
+                       'cdeliver']))
         # a long sequential history: every query answered (or expired) before the next; 16 descriptors
         long_steps = []
         for i in range(40):
